@@ -22,7 +22,7 @@ type Schedule struct {
 }
 
 func resetEvent(sess int) *Event {
-	return &Event{Ev: "Reset", Sess: sess, Runs: []RunSpec{}, New: []*Commit{}, Ref: []int{}, Trk: []int{}, Hub: []int{}, Returned: []int{}}
+	return &Event{Ev: "Reset", Sess: sess, Runs: []RunSpec{}, New: []*Commit{}, Ref: []int{}, M: "origin", Trk: map[string][]int{}, Hub: map[string][]int{}, Returned: []int{}}
 }
 
 // RunCmd: vh world <schedules.ndjson> <trace.ndjson>
